@@ -169,3 +169,17 @@ Theorem C05_guarded_tail_tail_independent : forall base W i key (s t1 t2 : list 
   result (s ++ t1) (guarded_tail base W i key) = result (s ++ t2) (guarded_tail base W i key).
 Proof. exact guarded_tail_tail_independent. Qed.
 Print Assumptions C05_guarded_tail_tail_independent.
+
+(* ---- optdec's private padded copy, tied to the source by Gen/OptPad.v *)
+From SV.Gen Require Import OptPad.
+From SV.Mem Require Import PadTie.
+Theorem C05_padded_buffer_is_input_then_padding : forall data pos,
+  padded_buffer data pos = skipn pos data ++ padding.
+Proof. exact padded_buffer_is_input_then_padding. Qed.
+Print Assumptions C05_padded_buffer_is_input_then_padding.
+
+Theorem C05_resumed_parse_sees_only_input : forall {A} (p : prog A) (data : list N) pos (t1 t2 : list N),
+  in_bounds (length (skipn pos data) + 64)%nat (touched (padded_buffer data pos ++ t1) p) ->
+  run (padded_buffer data pos ++ t2) p = run (padded_buffer data pos ++ t1) p.
+Proof. exact @resumed_parse_sees_only_input. Qed.
+Print Assumptions C05_resumed_parse_sees_only_input.
